@@ -506,6 +506,11 @@ func newEvalEngine(c Case) *evalEngine {
 	return ee
 }
 
+// evalVariantBudget bounds how many times a run renders a case again by other routes / on an engine with a past (each
+// costs several engines): the first cases of every stream get the variants, the long tail of a thorough or search
+// run does not.
+var evalVariantBudget = 60000
+
 // evalAbort is set when a render did not come back within the watchdog: a goroutine is then still running inside the
 // engine (and may end the process when its stack gives out), so the runners stop reading cases and write what they have.
 var evalAbort bool
@@ -524,6 +529,10 @@ func (ee *evalEngine) renderGuarded(name string, ctx map[string]interface{}) (ou
 // whose constructs fail halfway was rendered, and names in other letter cases were seen. It describes the first
 // outcome that differs from (out, class); "" when none does.
 func evalAfterHistory(c Case, ctx map[string]interface{}, prepare func(*evalEngine), out, class string) string {
+	if evalVariantBudget <= 0 {
+		return ""
+	}
+	evalVariantBudget--
 	names := evalCaseSources(c)
 	evalEngineTweak = func(e *twig.Engine) {
 		for n := range names {
@@ -584,6 +593,10 @@ var evalRegisterRoute string
 // evalByOtherRoutes renders the case's main template on engines that received the templates by each of the other
 // routes and describes the first outcome that differs from (out, class); "" when none does.
 func evalByOtherRoutes(c Case, ctx map[string]interface{}, prepare func(*evalEngine), out, class string) string {
+	if evalVariantBudget <= 0 {
+		return ""
+	}
+	evalVariantBudget--
 	for _, route := range []string{"parsed", "compiled-shared"} {
 		evalRegisterRoute = route
 		ee := newEvalEngine(c)
